@@ -95,6 +95,8 @@ def _tasks0(tier):
     out += worker_tasks("C20", ["sound"])
     from props.taste_parents import parent_tasks
     out += parent_tasks("C20")
+    from props.header_tasks import _ht
+    out += _ht("C20", tier)
     for nd in (2, 3):
         r = Reader("mp_read_box_slice_field", nd, "slice:::")
         r.prop = "C20"
